@@ -64,6 +64,7 @@ struct FakeConn : Connection {
 struct Worker {
   std::function<std::string(const std::string &)> fn;   // runs in the child
   int recycle_after = 4000, job_timeout_s = 20;
+  bool poisoned = false;        // child side: set by fn when the child must not be reused (reply is still delivered)
   pid_t pid = -1; int to = -1, from = -1, err = -1; int served = 0; long spawned = 0;
 
   static bool wr(int fd, const void *p, size_t n) { const char *c = (const char *)p; while (n) { ssize_t k = write(fd, c, n); if (k <= 0) { if (errno == EINTR) continue; return false; } c += k; n -= (size_t)k; } return true; }
@@ -83,7 +84,8 @@ struct Worker {
         alarm((unsigned)job_timeout_s);
         std::string r = fn(job);
         alarm(0);
-        uint32_t m = (uint32_t)r.size(); if (!wr(b[1], &m, 4) || !wr(b[1], r.data(), m)) _exit(0);
+        uint32_t m = (uint32_t)r.size() | (poisoned ? 0x80000000u : 0u); if (!wr(b[1], &m, 4) || !wr(b[1], r.data(), r.size())) _exit(0);
+        if (poisoned) _exit(0);
       }
     }
     close(a[0]); close(b[1]); close(e[1]); to = a[1]; from = b[0]; err = e[0];
@@ -98,8 +100,9 @@ struct Worker {
     served++;
     uint32_t n = (uint32_t)job.size(); bool ok = wr(to, &n, 4) && wr(to, job.data(), n);
     uint32_t m = 0; ok = ok && rd(from, &m, 4);
+    bool child_done = (m & 0x80000000u) != 0; m &= 0x7fffffffu;
     if (ok) { result.assign(m, '\0'); ok = (m == 0) || rd(from, &result[0], m); }
-    if (ok) { char junk[4096]; while (read(err, junk, sizeof junk) > 0) {} return true; }
+    if (ok) { char junk[4096]; while (read(err, junk, sizeof junk) > 0) {} if (child_done) stop(); return true; }
     // the child died: collect status + sanitizer headline
     close(to); close(from);
     int st = 0; waitpid(pid, &st, 0); pid = -1;
@@ -121,7 +124,9 @@ struct Worker {
     } else if ((p = e.find("runtime error: ")) != std::string::npos) {
       size_t b0 = e.rfind('\n', p); b0 = (b0 == std::string::npos) ? 0 : b0 + 1; std::string loc = e.substr(b0, p - b0); size_t sl = loc.rfind('/'); if (sl != std::string::npos) loc = loc.substr(sl + 1);
       size_t c1 = loc.find(':'); size_t c2 = c1 == std::string::npos ? c1 : loc.find(':', c1 + 1); if (c2 != std::string::npos) loc.resize(c2);
-      head = "ubsan@" + loc;
+      std::string msg = e.substr(p + 15, 60);
+      bool integer = msg.find("negation of") == 0 || msg.find("overflow") != std::string::npos || msg.find("shift") != std::string::npos || msg.find("division") != std::string::npos;
+      head = std::string(integer ? "ubsan-integer@" : "ubsan-pointer@") + loc;   // pointer = wild/misaligned/null access (a crash without UBSan)
     } else if ((p = e.find("terminate called")) != std::string::npos) {
       head = "uncaught-exception"; size_t w = e.find("what():", p);
       if (w != std::string::npos) { size_t q = e.find('\n', w); std::string what = e.substr(w + 8, q - (w + 8)); for (auto &c : what) if (c == ' ') c = '_'; head += "(" + what.substr(0, 40) + ")"; }
